@@ -202,6 +202,22 @@ def listing(spec):
     return res
 
 
+def value_paths(spec):
+    """every selector path that stays inside the struct: through value-embedded and plain struct-typed fields"""
+    byname = {s["name"]: s for s in spec["structs"]}
+    res = []
+
+    def walk(sname, path, sel):
+        for i, f in enumerate(byname[sname]["fields"]):
+            p, s = path + [i], sel + [f["name"]]
+            res.append({"path": p, "sel": s})
+            t = f["type"]
+            if t in byname and (f["embed"] in (None, "val")):
+                walk(t, p, s)
+    walk(spec["id"], [], [])
+    return res
+
+
 def go_type_decls(spec):
     out = []
     for s in spec["structs"]:
@@ -296,9 +312,7 @@ def go_shape_source(rng, spec, props, budget):
     o.append("\t\tID: %s, T: tyOf[%s]()," % (json.dumps(T), T))
     o.append("\t\tNewW: func() (unsafe.Pointer, unsafe.Pointer, uintptr) { w := new(W%s); return unsafe.Pointer(w), unsafe.Pointer(&w.S), unsafe.Sizeof(*w) }," % T)
     o.append("\t\tOffs: []pathOff{")
-    for e in L:
-        if not e["inline"] or "_" in e["sel"]:
-            continue
+    for e in value_paths(spec):
         chain = " + ".join("unsafe.Offsetof(z%s.%s)" % (T, ".".join(e["sel"][:k + 1])) for k in range(len(e["sel"])))
         o.append("\t\t\t{Path: []int{%s}, Off: %s, Addr: func(s unsafe.Pointer) unsafe.Pointer { return unsafe.Pointer(&(*%s)(s).%s) }},"
                  % (", ".join(map(str, e["path"])), chain, T, ".".join(e["sel"])))
@@ -357,7 +371,8 @@ def shapes_source(specs, seed, props, tier):
     rng = random.Random("%s/%s/%s" % (seed, "inst", ",".join(sorted(props))))
     budget = {"newn": 5, "unary": 10, "nary": 4, "wrong": 6}
     o = ["// GENERATED by tools/runner/props/optics_common.py from VERIF_SEED=%s. Do not edit." % seed, "package main", "",
-         "import (", '\t"reflect"', '\t"unsafe"', ")", "", "var _ = reflect.TypeOf", "var _ unsafe.Pointer", ""]
+         "import (", '\t"reflect"', '\t"unsafe"'] + (['\t"github.com/fogfish/golem/optics"'] if "C04" in props else []) + [
+         ")", "", "var _ = reflect.TypeOf", "var _ unsafe.Pointer", ""] + (["var _ optics.Lens[int, int]", ""] if "C04" in props else [])
     for n, u in NAMED.items():
         o.append("type %s %s" % (n, u))
     o.append("")
